@@ -20,6 +20,22 @@ type parserInfo struct {
 	// bind: while a parser combinator (a function that is handed its operator and its sub-parsers) is
 	// judged for one of its call sites, its parameters stand for that site's arguments
 	bind map[*ssa.Parameter]ssa.Value
+	// while a combinator is judged for one call site: the combinator and the function containing that site (a
+	// call of the combinator to itself that passes its own parameters on stands for that function)
+	siteComb, siteWrapper *ssa.Function
+}
+
+// passThroughSelfCall: c is a call of g to itself whose arguments are g's own parameters, in order.
+func passThroughSelfCall(g *ssa.Function, c *ssa.Call) bool {
+	if c.Parent() != g || c.Call.StaticCallee() != g || len(c.Call.Args) != len(g.Params) {
+		return false
+	}
+	for i, a := range c.Call.Args {
+		if a != ssa.Value(g.Params[i]) {
+			return false
+		}
+	}
+	return true
 }
 
 // deref replaces a bound parameter by the call-site argument.
@@ -42,6 +58,9 @@ func (pi *parserInfo) deref(v ssa.Value) ssa.Value {
 // parameter — the function (method value unwrapped) passed at the site under judgement.
 func (pi *parserInfo) calleeOf(c *ssa.Call) *ssa.Function {
 	if f := c.Call.StaticCallee(); f != nil {
+		if pi.siteComb != nil && f == pi.siteComb && pi.siteWrapper != nil && passThroughSelfCall(f, c) {
+			return pi.siteWrapper // the same instantiation again: the wrapper that made it
+		}
 		return f
 	}
 	switch fv := pi.deref(c.Call.Value).(type) {
@@ -82,8 +101,11 @@ func (pi *parserInfo) withSite(g *ssa.Function, c *ssa.Call, fn func()) {
 			pi.bind[prm] = c.Call.Args[i]
 		}
 	}
+	oldC, oldW := pi.siteComb, pi.siteWrapper
+	pi.siteComb, pi.siteWrapper = g, c.Parent()
 	fn()
 	pi.bind = old
+	pi.siteComb, pi.siteWrapper = oldC, oldW
 }
 
 // nonNilEdgeBlock returns the block entered when call result c is non-nil, if c is tested directly.
@@ -411,6 +433,9 @@ func ruleP1(p *Prog, r *Report, eng *Engine) {
 				for _, hb := range h.Blocks {
 					for _, hin := range hb.Instrs {
 						if hc, ok := hin.(*ssa.Call); ok && hc.Call.StaticCallee() == f {
+							if passThroughSelfCall(f, hc) {
+								continue // the combinator's own recursion: judged with each outer site
+							}
 							n++
 							pi.withSite(f, hc, func() { checkSite(f, hc.Pos(), vals) })
 						}
